@@ -7,6 +7,9 @@ import (
 	"github.com/nuetzliches/hookaido/verifharness/vlib"
 )
 
+var c13WideRoutes = []string{"/r0", "/r1", "/r2", "/r3", "/r4"}
+var c13WideTargets = []string{"pull", "https://t1.example/hook", "https://t2.example/hook", "https://t3.example/hook"}
+
 // C13: memory and SQLite are observationally equivalent.
 func C13(c *vlib.Ctx) {
 	c.Rule("lock-step differential execution of one generated operation sequence (60-100 steps, hostile arguments) on memory and SQLite under one virtual clock; after every step the return value (error class, counts, returned messages field by field, conflict classification) and a full API listing of all five states are compared. Only forced-choice dequeues are issued (batch >= number of eligible messages); in every other sequence a third of the dequeues come with a clock step that no listing observes first (the dequeue itself meets expired leases and retention deadlines together). distinct_nontrivial = distinct (backend, operation, result class, observed transitions) tuples.")
@@ -47,6 +50,18 @@ func C13(c *vlib.Ctx) {
 			r := vlib.Derive(c.Seed, "C13", ci, s)
 			g := storecheck.GenCfg{NIDs: r.Range(6, 24), Routes: stdRoutes, Targets: stdTargets, ForcedOnly: true,
 				OutOfOrder: r.Chance(0.4), Ties: r.Chance(0.4), PaddedLeases: true, Aux: true, Weights: w}
+			if s%3 == 2 {
+				// many (route, target) groups at once (20, well over any top-N a store keeps
+				// per group in its statistics), more messages, statistics read often
+				ww := storecheck.DefaultWeights()
+				for k, v := range w {
+					ww[k] = v
+				}
+				ww[storecheck.KStats] = 8
+				g.Routes, g.Targets = c13WideRoutes, c13WideTargets
+				g.NIDs = r.Range(30, 70)
+				g.Weights = ww
+			}
 			if s%2 == 1 {
 				// the harness lists the store after every step, and a listing is itself a
 				// call that prunes: in every other sequence a third of the dequeues are the
